@@ -49,6 +49,7 @@ from exabgp.bgp.message.update.attribute.nexthop import NextHop
 from exabgp.bgp.message.update.attribute.origin import Origin
 from exabgp.bgp.message.update.attribute.watchdog import NoWatchdog, Watchdog
 from exabgp.logger import lazyattribute, lazymsg, log
+from exabgp.protocol.ip import IPv4
 
 
 class _NOTHING:
@@ -426,6 +427,13 @@ class AttributeCollection(MutableMapping[int, Attribute]):
             return self
 
         data = data[offset:]
+
+        # RFC 7606 section 4: an attribute whose length runs past the end of the attribute
+        # block is malformed; it must not be read as a shorter attribute
+        if len(data) < length:
+            self.add(TreatAsWithdraw(aid))
+            return self
+
         left = data[length:]
         attribute = data[:length]
 
@@ -461,6 +469,10 @@ class AttributeCollection(MutableMapping[int, Attribute]):
                 return self.parse(left, negotiated)
 
             try:
+                # RFC 7606 section 7.3: the NEXT_HOP attribute carries an IPv4 address, any other
+                # length is malformed (IPv6 next hops travel in MP_REACH_NLRI)
+                if aid == Attribute.CODE.NEXT_HOP and length != IPv4.BYTES:
+                    raise ValueError(f'NEXT_HOP must be {IPv4.BYTES} bytes, got {length}')
                 decoded: Attribute = Attribute.unpack(aid, flag, attribute, negotiated)
             except (IndexError, ValueError) as exc:
                 if kls and kls.TREAT_AS_WITHDRAW:
@@ -509,8 +521,10 @@ class AttributeCollection(MutableMapping[int, Attribute]):
                     'parser',
                 )
                 return self.parse(left, negotiated)
-            # Attributes not in TREAT_AS_WITHDRAW or DISCARD fall through to this log
-            # This catches implementation gaps - if this fires, add aid to one of the lists
+            # RFC 7606 section 3.c: Optional or Transitive bits in conflict with the
+            # attribute's definition are malformed, treat-as-withdraw unless the class says otherwise
+            if not (kls and kls.TREAT_AS_WITHDRAW):
+                self.add(TreatAsWithdraw(aid))
             log.debug(
                 lambda: (
                     'invalid flag for attribute {} (flag 0x{:02X}, aid 0x{:02X}) unspecified (should not happen)'.format(
